@@ -28,20 +28,20 @@ func ruleGrouperSelection(r *Run) {
 		var gNonNil *ssa.BinOp
 		var gTrueWhenNonNil bool
 		var withoutLoads []ssa.Value
-		allInstrs(fn, func(in ssa.Instruction) {
-			switch x := in.(type) {
-			case *ssa.BinOp:
-				if v, nn, ok := nilCheck(x); ok {
-					if f, _, ok := loadOfField(v); ok && f == "Grouping" {
+		for _, gf := range funcGroup(fn) {
+			allInstrs(gf, func(in ssa.Instruction) {
+				switch x := in.(type) {
+				case *ssa.BinOp:
+					if v, nn, ok := nilCheck(x); ok && typeKey(v.Type()) == "Grouping" {
 						gNonNil, gTrueWhenNonNil = x, nn
 					}
+				case *ssa.UnOp:
+					if f, base, ok := loadOfField(x); ok && f == "Without" && typeKey(base.Type()) == "Grouping" {
+						withoutLoads = append(withoutLoads, x)
+					}
 				}
-			case *ssa.UnOp:
-				if f, _, ok := loadOfField(x); ok && f == "Without" {
-					withoutLoads = append(withoutLoads, x)
-				}
-			}
-		})
+			})
+		}
 		if gNonNil == nil || len(withoutLoads) == 0 {
 			o.Undecide(r.pos(fn.Pos()), "Grouping != nil / Without tests not found")
 			continue
@@ -71,7 +71,7 @@ func ruleGrouperSelection(r *Run) {
 			for _, wl := range withoutLoads {
 				assume[wl] = constant.MakeBool(c.without)
 			}
-			w := &feWalker{Fn: fn, Assume: assume}
+			w := &feWalker{Fn: fn, Assume: assume, Inline: inlineHelpers(fn)}
 			got := map[string]bool{}
 			labelsOK := true
 			for _, e := range w.Run() {
